@@ -160,4 +160,50 @@ theorem C04_final_status_means_ended (S : Settings) (es : List Ev) :
     · exact finalMeansEnded_bstep S a1 a' hb (finalMeansEnded_own S a a1 ho (h c a ha))
     · exact finalMeansEnded_bstep S _ a' hb (by intro ht; simp [newAgent, startStatus_not_terminal] at ht)
 
+/-! ## the stored observation never runs ahead of the episode -/
+
+/-- the observation kept for an agent (what FORBIDDEN replies and RESET_DONE / CREATED are built from)
+says `end = True` only if the episode is marked ended -/
+def ObsBehind (a : Agent) : Prop := a.obs.ended = true → a.ended = true
+
+theorem obsBehind_bstep (S : Settings) (a b : Agent) (hs : BStep S a b) (h : ObsBehind a) : ObsBehind b := by
+  induction hs with
+  | refl a => exact h
+  | pay a sa =>
+    have hf := payOne_frame S sa a
+    have ho : (payOne S sa a).obs = a.obs := by
+      unfold payOne; split <;> (try simp); split <;> (try simp); split <;> simp
+    intro hb; rw [ho] at hb; rw [hf.2.2]; exact h hb
+  | record a act => intro hb; simpa [recordStep, obsOf] using hb
+  | reset a v _ => intro hb; simp [resetOne] at hb
+  | restart a => exact h
+  | trans _ _ ih1 ih2 => exact ih2 (ih1 h)
+
+theorem obsBehind_own (S : Settings) (a b : Agent) (hs : OwnStep S a b) (h : ObsBehind a) : ObsBehind b := by
+  cases hs with
+  | req => exact h
+  | play act v roll e he hterm =>
+    intro hb
+    have : a.obs.ended = true := by simpa [playedAgent] using hb
+    have := h this
+    rw [he] at this; cases this
+
+/-- **For every history.** -/
+theorem C04_stored_observation_behind (S : Settings) (es : List Ev) :
+    ∀ c a, (run S init es).1.agents c = some a → ObsBehind a := by
+  suffices H : ∀ (s : St), (∀ c a, s.agents c = some a → ObsBehind a) →
+      ∀ c a, (run S s es).1.agents c = some a → ObsBehind a by
+    exact H init (by intro c a h; simp [init] at h)
+  induction es with
+  | nil => intro s h; simpa [run] using h
+  | cons e es ih =>
+    intro s h
+    simp only [run]
+    refine ih _ ?_
+    intro c a' ha'
+    rcases deliver_trace S s e c a' ha' with ⟨a, ha, hb⟩ | ⟨_, a, a1, ha, ho, hb⟩ | ⟨_, _, n, r, v, hb⟩
+    · exact obsBehind_bstep S a a' hb (h c a ha)
+    · exact obsBehind_bstep S a1 a' hb (obsBehind_own S a a1 ho (h c a ha))
+    · exact obsBehind_bstep S _ a' hb (by intro ht; simp [newAgent] at ht)
+
 end NSG.Coord
